@@ -167,6 +167,61 @@ class Check:
         return 1 if new else 0
 
 
+# ---------------------------------------------------------------------------------------------
+# binding canary: a trace specification that accepts everything binds nothing.  Every run corrupts a few of the
+# lines it has just recorded (the observed answer only) and requires the trace specification to reject them.
+
+FLIP_KEYS = ("obs", "accepted", "ok", "cid_eq", "iseq_ab", "iseq_ba", "eq_ab", "eq_ba", "ne_ab", "contains", "overlaps")
+
+
+def _flip(v):
+    if isinstance(v, bool):
+        return not v
+    if isinstance(v, int):
+        return v + 1
+    if isinstance(v, str):
+        return v + "?"
+    if isinstance(v, list):
+        return v[:-1] if v else ["?x"]
+    if isinstance(v, dict):
+        return {**v, "?x": 1} if not v else {k: _flip(x) for k, x in v.items()}
+    return None
+
+
+def corrupt_generic(line: dict):
+    """the same line with the observed answer changed (None if the line has no field known to hold one)"""
+    out = json.loads(json.dumps(line))
+    hit = False
+    for k in FLIP_KEYS:
+        if k in out:
+            nv = _flip(out[k])
+            if nv is not None:
+                out[k] = nv
+                hit = True
+            if k == "obs":
+                break
+    return out if hit else None
+
+
+def canary(chk: "Check", lines: list, validate, corrupt=corrupt_generic, n: int = 24, what: str = "trace spec",
+           skip: set | None = None):
+    """corrupt up to n of the recorded lines and have the trace specification judge them; none rejected = the binding
+    is vacuous = machinery failure.  `skip`: 1-based numbers of lines that were rejected anyway."""
+    skip = skip or set()
+    idx = [i for i in range(len(lines)) if (i + 1) not in skip]
+    if not idx:
+        return
+    step = max(1, len(idx) // n)
+    bad = [c for c in (corrupt(lines[i]) for i in idx[::step][:n]) if c is not None]
+    if not bad:
+        return
+    rej = validate(chk, bad, name="canary")
+    nrej = len(rej)
+    chk.notes.setdefault("binding_canary", []).append({"trace_spec": what, "corrupted_lines": len(bad), "rejected": nrej})
+    if nrej == 0:
+        raise tlc.MachineryError(f"binding canary: {what} accepted all {len(bad)} corrupted lines")
+
+
 def safe(fn, case, *args):
     """Run a per-case check; an exception escaping from the library under test is a violation of the
     case at hand (clause `stray-exception`), not a failure of the machinery."""
